@@ -317,9 +317,15 @@ fn run(c: &Case, out: &mut Out) {
                     let exhausted_by_request = requests != 0 && f.1 >= requests;
                     // the echo must come back to the flow's client (the first source of the flow);
                     // a flow closed by its requests cap drops the reply by design
-                    if !exhausted_by_request {
-                        let mut want = format!("B{bi}|").into_bytes();
-                        want.extend_from_slice(&payload);
+                    let mut want = format!("B{bi}|").into_bytes();
+                    want.extend_from_slice(&payload);
+                    // the echo is 3 bytes longer than the request: beyond max_rx_datagram_size the
+                    // proxy drops it as truncated, by design
+                    if want.len() > 1500 {
+                        if recv_one(&clients[&owner], QUIET).is_some() {
+                            out.viol("e2e-isolated", &format!("client {owner}: a {}-byte reply above max_rx_datagram_size was returned", want.len()));
+                        }
+                    } else if !exhausted_by_request {
                         match recv_one(&clients[&owner], RT) {
                             None => out.viol("e2e-isolated", &format!("client {ci}: no reply came back from backend {bi} to the flow's client {owner}")),
                             Some(r) if r != want => out.viol("e2e-isolated", &format!("client {owner}: received a reply that is not the echo of the datagram just forwarded on its flow")),
